@@ -6,7 +6,7 @@
     and of the range coder (RcAbs/RcDec/RcEnc/RcRoundtrip.v): every bit
     sequence, under every context-selection program, with the adaptive
     probabilities, survives encode-then-decode. *)
-From XZ Require Import Base Bcj BcjProofs Xz VliProofs Bound Lzma RcAbs RcDec RcEnc RcRoundtrip.
+From XZ Require Import Base Bcj BcjProofs Xz VliProofs Bound Lzma RcAbs RcDec RcEnc RcRoundtrip RcCodes LzmaEnc LzmaSym LzmaRun.
 Local Open Scope N_scope.
 
 Theorem delta_filter_lossless : forall dist l, bytes_ok l -> delta_decode dist (delta_encode dist l) = l.
@@ -76,4 +76,68 @@ Print Assumptions probabilities_stay_in_range.
 Example range_coder_example :
   encode [DBit 1024 true; DBit 992 false; DDirect true; DBit 31 true; DBit 2017 false; DBit 1024 true]
   = [0; 174; 128; 228; 0].
+Proof. vm_compute. reflexivity. Qed.
+
+(** LZMA.  [enc_run] serialises a sequence of LZMA symbols (literal, match,
+    short rep, long rep 0..3) into range-coder decisions exactly as the
+    bit-level part of lzma_encoder.c does (contexts, matched literals, length
+    and distance coders, state machine), [enc_eopm] is the end marker,
+    [encode] the range encoder.  [lz_run] is the LZMA decoder specification
+    (the one the library decoder is checked against in C03).  For EVERY symbol
+    sequence that is valid in its state (distances inside the history and
+    the dictionary, lengths 2..273), every lc/lp/pb, every starting state:
+    the decoder stops with Finished, has rebuilt exactly the LZ77 expansion of
+    the symbols (history and output of the encoder-side run), and has consumed
+    exactly the encoder's bytes.  Which symbols the real encoder chooses
+    (match finder, optimiser) is outside the theorem; that its bytes are this
+    serialisation of the symbols they decode to is checked per run. *)
+Theorem lzma_symbol_coding_lossless :
+  forall (pr : props) (dict_size : N) (allow_eopm : bool)
+         (ps0 : probs) (st0 r0 r1 r2 r3 : N) (h0 : hist), all_ok ps0 ->
+  forall syms rest fuel,
+  let z0 := z_start ps0 st0 r0 r1 r2 r3 h0 None in
+  valid_run pr dict_size z0 syms ->
+  (length syms < Pos.to_nat fuel)%nat ->
+  let er := enc_run pr z0 syms in
+  let ds := fst er ++ fst (enc_eopm pr (snd er) (zps (snd er))) in
+  exists zs,
+    lz_start (encode ds ++ rest) ps0 st0 r0 r1 r2 r3 h0 None = inl zs /\
+    let zr := lz_run pr dict_size allow_eopm fuel zs in
+    zstatus zr = Finished /\ zout zr = zout (snd er) /\ zhist zr = zhist (snd er) /\
+    rin (zrc zr) = rest /\ rused (zrc zr) = N.of_nat (length (encode ds)).
+Proof. exact lzma_roundtrip_eopm. Qed.
+Print Assumptions lzma_symbol_coding_lossless.
+
+Theorem lzma_symbol_coding_lossless_known_size :
+  forall (pr : props) (dict_size : N) (allow_eopm : bool)
+         (ps0 : probs) (st0 r0 r1 r2 r3 : N) (h0 : hist), all_ok ps0 ->
+  forall syms n rest fuel,
+  let z0 := z_start ps0 st0 r0 r1 r2 r3 h0 (Some n) in
+  valid_run pr dict_size z0 syms ->
+  (length syms < Pos.to_nat fuel)%nat ->
+  let er := enc_run pr z0 syms in
+  zleft (snd er) = Some 0 ->
+  let ds := fst er in
+  exists zs,
+    lz_start (encode ds ++ rest) ps0 st0 r0 r1 r2 r3 h0 (Some n) = inl zs /\
+    let zr := lz_run pr dict_size allow_eopm fuel zs in
+    zstatus zr = Finished /\ zout zr = zout (snd er) /\ zhist zr = zhist (snd er) /\
+    rin (zrc zr) = rest /\ rused (zrc zr) = N.of_nat (length (encode ds)).
+Proof. exact lzma_roundtrip_known_size. Qed.
+Print Assumptions lzma_symbol_coding_lossless_known_size.
+
+(* non-vacuity: a concrete symbol sequence meets the hypotheses and decodes as claimed *)
+Definition ex_pr : props := {| lc := 3; lp := 0; pb := 2 |}.
+Definition ex_syms : list lsym :=
+  [SLit 97; SLit 98; SLit 99; SMatch 2 5; SShortRep; SLit 100; SLongRep 0 3; SMatch 0 2; SLongRep 1 4; SLit 0].
+Example lzma_example_valid : valid_run ex_pr 4096 (z_init None) ex_syms.
+Proof. vm_compute. repeat split; try reflexivity; try (intro H; discriminate H); try (left; reflexivity); auto. Qed.
+Example lzma_example_decodes :
+  let er := enc_run ex_pr (z_init None) ex_syms in
+  let bytes := encode (fst er ++ fst (enc_eopm ex_pr (snd er) (zps (snd er)))) in
+  match lz_start (bytes ++ [1; 2; 3]) (PM.empty N) 0 0 0 0 0 hist_empty None with
+  | inl zs => let zr := lz_run ex_pr 4096 false 64 zs in
+              (zstatus zr, rev (zout zr), rin (zrc zr))
+  | inr _ => (DataError, [], [])
+  end = (Finished, [97; 98; 99; 97; 98; 99; 97; 98; 99; 100; 98; 99; 100; 100; 100; 100; 100; 100; 100; 0], [1; 2; 3]).
 Proof. vm_compute. reflexivity. Qed.
